@@ -3,9 +3,9 @@
 package engine
 
 import (
-	"github.com/form3tech-oss/f1/v2/pkg/f1"
 	"context"
 	"fmt"
+	"github.com/form3tech-oss/f1/v2/pkg/f1"
 	"log/slog"
 	"os"
 	"path/filepath"
@@ -211,25 +211,25 @@ type Spec struct {
 	CustomRates      []int `json:"custom_rates,omitempty"`
 	TriggerDurMS     int   `json:"trigger_dur_ms,omitempty"`
 
-	Concurrency     int               `json:"concurrency"`
-	MaxIterations   uint64            `json:"max_iterations,omitempty"`
-	MaxDurationMS   int               `json:"max_duration_ms"`
-	CompletionMS    int               `json:"completion_ms,omitempty"`
-	MaxFailures     uint64            `json:"max_failures,omitempty"`
-	MaxFailuresRate int               `json:"max_failures_rate,omitempty"`
-	IgnoreDropped   bool              `json:"ignore_dropped,omitempty"`
-	Labels          map[string]string `json:"labels,omitempty"`
-	Interactive     bool              `json:"interactive,omitempty"`
-	Verbose         bool              `json:"verbose,omitempty"`
-	NoIterationMetrics bool           `json:"no_iteration_metrics,omitempty"` // metrics instance built with iteration metrics disabled
+	Concurrency        int               `json:"concurrency"`
+	MaxIterations      uint64            `json:"max_iterations,omitempty"`
+	MaxDurationMS      int               `json:"max_duration_ms"`
+	CompletionMS       int               `json:"completion_ms,omitempty"`
+	MaxFailures        uint64            `json:"max_failures,omitempty"`
+	MaxFailuresRate    int               `json:"max_failures_rate,omitempty"`
+	IgnoreDropped      bool              `json:"ignore_dropped,omitempty"`
+	Labels             map[string]string `json:"labels,omitempty"`
+	Interactive        bool              `json:"interactive,omitempty"`
+	Verbose            bool              `json:"verbose,omitempty"`
+	NoIterationMetrics bool              `json:"no_iteration_metrics,omitempty"` // metrics instance built with iteration metrics disabled
 	// Combine > 0: the scenario is registered as f1.CombineScenarios(scenario, <Combine-1 passing components>)
 	Combine int `json:"combine,omitempty"`
 	// GlobalMetrics: the run uses the process-wide metrics instance (as the command line does), re-initialised for it
 	GlobalMetrics bool `json:"global_metrics,omitempty"`
 	// PushGateway: URL of a push gateway the run pushes its metrics to
 	PushGateway string `json:"push_gateway,omitempty"`
-	QuietLogger     bool              `json:"quiet_logger,omitempty"` // the slog handler is disabled for every level
-	Scenario        string            `json:"scenario,omitempty"`
+	QuietLogger bool   `json:"quiet_logger,omitempty"` // the slog handler is disabled for every level
+	Scenario    string `json:"scenario,omitempty"`
 }
 
 func ms(n int) time.Duration { return time.Duration(n) * time.Millisecond }
